@@ -152,15 +152,41 @@ def expandSubschemas (schema : Json) : List Json :=
 
 def hasKey (j : Json) (k : String) : Bool := (j.get? k).isSome
 
+inductive Variant where
+  | asFound      -- the pinned snapshot
+  | repaired     -- the proposed fix
+  deriving Repr, DecidableEq
+
+/-- `needle` occurs in `hay` as a contiguous run -/
+def isInfixChars (needle : List Char) : List Char → Bool
+  | [] => needle.isEmpty
+  | c :: rest => needle.isPrefixOf (c :: rest) || isInfixChars needle rest
+
+/-- Python's `k in x` for the values an example can resolve to: a key of a dict, a substring of a string, an element
+    of a list (numbers, booleans and null raise TypeError in Python; not generated) -/
+def pyIn (k : String) : Json → Bool
+  | .obj kvs => (Json.lookup k kvs).isSome
+  | .str s => isInfixChars k.toList s.toList
+  | .arr xs => xs.any fun x => x == .str k
+  | _ => false
+
+/-- the `"value" not in example` test of `extract_inner_examples`.  asFound: Python's `in` on whatever the reference
+    resolved to.  repaired: only an Example Object (a dict) can have the key. -/
+def hasKeyV (v : Variant) (j : Json) (k : String) : Bool :=
+  match v with
+  | .asFound => pyIn k j
+  | .repaired => hasKey j k
+
 /-- one `for name, example in examples.items()` iteration (externalValue needs the network: yields nothing) -/
-def innerOf (unresolved : Json) (kv : String × Json) : List Json :=
-  (if hasKey ((unresolved.get? kv.1).getD .null) "$ref" && !hasKey kv.2 "value" && !hasKey kv.2 "externalValue"
+def innerOf (vRef : Variant) (unresolved : Json) (kv : String × Json) : List Json :=
+  (if hasKey ((unresolved.get? kv.1).getD .null) "$ref" && !hasKeyV vRef kv.2 "value" && !hasKeyV vRef kv.2 "externalValue"
    then [kv.2] else []) ++
   (match kv.2.get? "value" with
    | some v => [v]
    | none => [])
 
-def extractInner (examples unresolved : Json) : List Json := (objItems examples).flatMap (innerOf unresolved)
+def extractInner (vRef : Variant) (examples unresolved : Json) : List Json :=
+  (objItems examples).flatMap (innerOf vRef unresolved)
 
 /-- `for value in schema[examples_field]` — a list yields its items, a dict its keys -/
 def iterValues : Json → List Json
@@ -189,10 +215,10 @@ def definitionsOf (s : Source) : List Json :=
   | some sch => s.definition :: expandSubschemas sch
   | none => [s.definition]
 
-def topValues (s : Source) : List Json :=
+def topValues (vRef : Variant) (s : Source) : List Json :=
   (definitionsOf s).flatMap (fun d => s.exampleFields.filterMap fun f => d.get? f) ++
   (match s.definition.get? s.examplesField with
-   | some exs => extractInner exs s.unresolved
+   | some exs => extractInner vRef exs s.unresolved
    | none => []) ++
   (match s.definition.get? "schema" with
    | some sch => (expandSubschemas sch).flatMap fun sub =>
@@ -202,8 +228,8 @@ def topValues (s : Source) : List Json :=
    | none => []) ++
   (if s.isBody then [] else s.respValues)
 
-def extractTopLevel (srcs : List Source) : List Example :=
-  srcs.flatMap fun s => (topValues s).map s.mk'
+def extractTopLevel (vRef : Variant) (srcs : List Source) : List Example :=
+  srcs.flatMap fun s => (topValues vRef s).map s.mk'
 
 /-! ## extract_from_schema -/
 
@@ -271,15 +297,10 @@ def extractFromSchemas (gen : Json → Json) (fuel : Nat) (srcs : List Source) :
     (extractFromSchemaF gen ff.1 ff.2 fuel s.jsonSchema).map s.mk'
 
 /-- the example list of `get_strategies_from_examples` (`iter_parameters()` first, then `operation.body`) -/
-def allExamples (gen : Json → Json) (fuel : Nat) (params bodies : List Source) : List Example :=
-  extractTopLevel (params ++ bodies) ++ extractFromSchemas gen fuel (params ++ bodies)
+def allExamples (vRef : Variant) (gen : Json → Json) (fuel : Nat) (params bodies : List Source) : List Example :=
+  extractTopLevel vRef (params ++ bodies) ++ extractFromSchemas gen fuel (params ++ bodies)
 
 /-! ## `{**parameters, **kwargs}` in get_strategies_from_examples -/
-
-inductive Variant where
-  | asFound      -- the pinned snapshot
-  | repaired     -- the proposed fix
-  deriving Repr, DecidableEq
 
 def setContainer (k : String) (v : Container) : Containers → Containers
   | [] => [(k, v)]
@@ -362,7 +383,7 @@ def addExamples (vExc vHdr : Variant) : Except Exc (List ECase) → AddResult
   | .error e => ⟨[], excMarks vExc e, false⟩
 
 inductive Status where
-  | success | skip | error
+  | success | skip | failure | error
   deriving Repr, DecidableEq
 
 /-- `run_test` for the examples phase when every sent request passes its checks -/
@@ -371,5 +392,252 @@ def runStatus (r : AddResult) : Status :=
   else if !r.marks.isEmpty then .error
   else if r.sent.isEmpty then .skip
   else .success
+
+/-! ## create_test: which Hypothesis phases the test is given -/
+
+inductive HPhase where
+  | explicit | reuse | generate | target | shrink | explain
+  deriving Repr, DecidableEq
+
+/-- `HypothesisTestMode` (the engine passes exactly one: `modes=[mode]`) -/
+inductive Mode where
+  | examples | coverage | fuzzing
+  deriving Repr, DecidableEq
+
+def defaultPhases : List HPhase := [.explicit, .reuse, .generate, .target, .shrink, .explain]
+
+/-- the merge of the user's `hypothesis.settings` into the test's settings, `phases` component
+    (`none`: no settings / phases left at their default) -/
+def settingsPhases (user : Option (List HPhase)) : List HPhase := user.getD defaultPhases
+
+/-- `create_test`: `explain` is removed; without FUZZING among the modes `reuse` and `generate` are removed as soon
+    as one of them is present -/
+def dropExplain (phases : List HPhase) : List HPhase :=
+  if phases.contains .explain then phases.filter (fun p => p != .explain) else phases
+
+def createPhases (modes : List Mode) (phases : List HPhase) : List HPhase :=
+  let p1 := dropExplain phases
+  if !modes.contains .fuzzing && (p1.contains .generate || p1.contains .reuse) then
+    p1.filter fun p => !(p == .reuse || p == .generate)
+  else p1
+
+/-- the guard in front of `add_examples` -/
+def registersExamples (modes : List Mode) (final : List HPhase) (supportsExamples : Bool) : Bool :=
+  modes.contains .examples && final.contains .explicit && supportsExamples
+
+/-! ## what Hypothesis does with the test (contract of `@given` + `@example`, an assumption of this model) -/
+
+/-- what happens to one input: every check passes / a check fails (`Failure`) / the request itself errors
+    (time-out, connection error, … collected in `errors`, `UnexpectedError` raised) -/
+inductive Verdict where
+  | pass | fail | error
+  deriving Repr, DecidableEq
+
+/-- how the call `test_function(...)` inside `run_test` ends -/
+inductive Outcome where
+  | returned | skipped | failed | errored
+  deriving Repr, DecidableEq
+
+/-- does the test go on to the next input after this one?  A failed check ends it at once (`FailureGroup` is a
+    `BaseExceptionGroup`, not an `Exception`: Hypothesis never continues after it); an error of the request itself
+    (`UnexpectedError`, an `Exception`) lets the remaining *explicit* examples run when `report_multiple_bugs` is on -/
+def goesOn (rmb : Bool) (v : Verdict) : Bool := v == .pass || (rmb && v == .error)
+
+/-- run the inputs in order, up to and including the first one after which the test does not go on -/
+def runUntil (rmb : Bool) (verdict : α → Verdict) : List α → List α
+  | [] => []
+  | x :: rest => if goesOn rmb (verdict x) then x :: runUntil rmb verdict rest else [x]
+
+def worst (vs : List Verdict) : Outcome :=
+  if vs.contains .error then .errored else if vs.contains .fail then .failed else .returned
+
+structure Exec (α : Type) where
+  explicitRan : List α       -- `@example` inputs the test body ran on
+  engineRan : List α         -- inputs replayed from the database / generated by the conjecture engine
+  outcome : Outcome
+
+def Exec.executed (e : Exec α) : List α := e.explicitRan ++ e.engineRan
+
+/-- `wrapped_test` of `@given`: the explicit examples first (see `goesOn` for where they stop); a failure there is
+    raised at once.  Without `reuse` and `generate` nothing else runs (SkipTest
+    when nothing ran at all).  Otherwise the conjecture engine replays the database entries of this test (`reuse`) and
+    generates new inputs (`generate`) until the first one that does not pass. -/
+def hypRun (phases : List HPhase) (rmb : Bool) (explicit db gen : List α) (verdict : α → Verdict) : Exec α :=
+  let ex := if phases.contains .explicit then runUntil rmb verdict explicit else []
+  let exOut := worst (ex.map verdict)
+  if exOut != .returned then ⟨ex, [], exOut⟩
+  else if !(phases.contains .reuse || phases.contains .generate) then
+    ⟨ex, [], if ex.isEmpty then .skipped else .returned⟩
+  else
+    let pool := (if phases.contains .reuse then db else []) ++ (if phases.contains .generate then gen else [])
+    let ran := runUntil false verdict pool
+    ⟨ex, ran, if ex.isEmpty && ran.isEmpty then .skipped else worst (ran.map verdict)⟩
+
+/-! ## run_test: exception arms, marks, collected errors -/
+
+/-- how `test_function(...)` ends, by `except` arm of `run_test` (Flaky, AssertionError, KeyboardInterrupt not modelled) -/
+inductive Raised where
+  | returned | skipTest | failure | unexpectedError | exceptionGroup | unsatisfiable | refResolution
+  | invalidArgument | deadlineExceeded | jsonSchemaError | other
+  deriving Repr, DecidableEq
+
+/-- the `NonFatalError`s of one scenario, by kind -/
+inductive Report where
+  | unsatisfiable                          -- hypothesis.errors.Unsatisfiable (arm or mark)
+  | nonSerializable                        -- SerializationNotPossible
+  | invalidRegex                           -- InvalidRegexPattern
+  | invalidHeaders (names : List String)   -- InvalidHeadersExample.from_headers
+  | schemaProblem                          -- UnsupportedRecursiveReference / the InvalidSchema kept by the mark
+  | deadline
+  | testError                              -- an exception of the test itself or one collected in `errors`
+  deriving Repr, DecidableEq
+
+def armOf : Raised → Status × List Report
+  | .returned => (.success, [])
+  | .skipTest => (.skip, [])
+  | .failure => (.failure, [])
+  | .unexpectedError => (.error, [])       -- the errors themselves are in `errors`, yielded at the end
+  | .exceptionGroup => (.error, [])
+  | .unsatisfiable => (.error, [.unsatisfiable])
+  | .refResolution => (.error, [.schemaProblem])
+  | .invalidArgument => (.error, [.testError])
+  | .deadlineExceeded => (.error, [.deadline])
+  | .jsonSchemaError => (.error, [.invalidRegex])
+  | .other => (.error, [.testError])
+
+/-- one `if <mark> [and status != Status.ERROR]: status = Status.ERROR; yield non_fatal_error(…)` -/
+def markStep (isSet guarded : Bool) (rep : Report) (acc : Status × List Report) : Status × List Report :=
+  if isSet && !(guarded && acc.1 == .error) then (.error, acc.2 ++ [rep]) else acc
+
+/-- the value of `InvalidHeadersExampleMark` after the loop of `add_examples`: every `set` overwrites the previous
+    one, so it holds the unsendable header names of the *last* example that has any -/
+def lastInvalid : List ECase → List String
+  | [] => []
+  | c :: rest =>
+    match lastInvalid rest with
+    | [] => c.invalidHeaders
+    | l => l
+
+/-- asFound: the overwritten mark.  repaired: the mark accumulates the unsendable headers of every example. -/
+def invalidMark (v : Variant) (cases : List ECase) : List String :=
+  match v with
+  | .asFound => lastInvalid cases
+  | .repaired => cases.flatMap fun c => c.invalidHeaders
+
+/-- `run_test` after `test_function(...)` ended as `raised`: `cofFailure` = continue_on_failure is on and a recorded
+    check failed; `nErrors` = exceptions collected in `errors` (after de-duplication) -/
+def runTest (raised : Raised) (cofFailure : Bool) (nErrors : Nat) (marks : List Mark) (badHeaders : List String) :
+    Status × List Report :=
+  let a0 := armOf raised
+  let a1 : Status × List Report := if a0.1 == .success && cofFailure then (.failure, a0.2) else a0
+  let a2 := markStep (marks.contains .unsatisfiable) false .unsatisfiable a1
+  let a3 := markStep (marks.contains .nonSerializable) true .nonSerializable a2
+  let a4 := markStep (marks.contains .invalidRegex) true .invalidRegex a3
+  let a5 := markStep (!badHeaders.isEmpty) false (.invalidHeaders badHeaders) a4
+  let a6 := markStep (marks.contains .examplesNotBuilt) true .schemaProblem a5
+  (a6.1, a6.2 ++ List.replicate nErrors .testError)
+
+/-- the report each mark of `add_examples` stands for -/
+def Mark.report : Mark → Report
+  | .unsatisfiable => .unsatisfiable
+  | .nonSerializable => .nonSerializable
+  | .invalidRegex => .invalidRegex
+  | .invalidHeaders => .invalidHeaders []
+  | .examplesNotBuilt => .schemaProblem
+
+def raisedOf : Outcome → Raised
+  | .returned => .returned
+  | .skipped => .skipTest
+  | .failed => .failure
+  | .errored => .unexpectedError
+
+/-! ## one scenario of a unit phase, and histories of runs that share the Hypothesis example database -/
+
+structure RunCfg where
+  mode : Mode                  -- examples / coverage / fuzzing phase of the engine
+  phases : List HPhase         -- `hypothesis_settings.phases`
+  rmb : Bool                   -- `report_multiple_bugs`
+  cof : Bool                   -- `continue_on_failure`: failed checks are recorded, not raised
+  unique : Bool                -- `unique_inputs`: an input whose hash was seen before is not sent again
+  sensitive : List (String × String)   -- (container, name) of the parameters output sanitization masks
+  useDb : Bool                 -- `hypothesis_settings.database` is the shared database (not None)
+  gen : List ECase             -- what the conjecture engine would generate in this run
+  verdict : ECase → Verdict    -- behaviour of the API / transport per input
+
+/-- what the test body raises for an input: with continue_on_failure a failed check is only recorded -/
+def RunCfg.ctl (cfg : RunCfg) (c : ECase) : Verdict :=
+  if cfg.cof && cfg.verdict c == .fail then .pass else cfg.verdict c
+
+structure ScenarioResult where
+  executed : List ECase        -- the inputs a request was sent for
+  engineRan : List ECase       -- the part of them that came from the database / the generator
+  status : Status
+  reports : List Report
+
+/-- the case as the sanitized code sample shows it: sensitive values replaced -/
+def maskCase (sensitive : List (String × String)) (c : ECase) : ECase :=
+  { c with params := c.params.map fun cv =>
+      (cv.1, cv.2.map fun nv => if sensitive.contains (cv.1, nv.1) then (nv.1, Json.str "[Filtered]") else nv) }
+
+/-- what `Case.__hash__` looks at.  asFound: the *sanitized* curl command.  repaired: the request itself. -/
+def caseKey (v : Variant) (sensitive : List (String × String)) (c : ECase) : ECase :=
+  match v with
+  | .asFound => maskCase sensitive c
+  | .repaired => c
+
+def sameReq (a b : ECase) : Bool := a.params == b.params && a.body == b.body
+
+/-- the inputs that are really sent with `unique_inputs`: the first one of every key -/
+def dedupKey (key : ECase → ECase) : List ECase → List ECase → List ECase
+  | _, [] => []
+  | seen, c :: rest =>
+    if seen.any (fun x => sameReq (key x) (key c)) then dedupKey key seen rest
+    else c :: dedupKey key (c :: seen) rest
+
+/-- the outcome `cached_test_func` replays for an input: that of the first input with the same key -/
+def firstWithKey (key : ECase → ECase) (l : List ECase) (c : ECase) : ECase :=
+  (l.find? fun x => sameReq (key x) (key c)).getD c
+
+/-- `run_test` on the test `create_test` built: `final` phases, registered examples + marks `add`, value `bad` of the
+    invalid-header mark -/
+def runScenario (vHash : Variant) (final : List HPhase) (add : AddResult) (bad : List String) (db : List ECase)
+    (cfg : RunCfg) : ScenarioResult :=
+  if add.raised then ⟨[], [], .error, [.testError]⟩       -- `on_error` of the worker
+  else
+    let registered := add.sent.reverse
+    let key := caseKey vHash cfg.sensitive
+    let ctl : ECase → Verdict := if cfg.unique then fun c => cfg.ctl (firstWithKey key registered c) else cfg.ctl
+    let ex := hypRun final cfg.rmb registered (if cfg.useDb then db else []) cfg.gen ctl
+    let sent := if cfg.unique then dedupKey key [] ex.executed else ex.executed
+    let nErr := (sent.filter fun c => cfg.verdict c == .error).length
+    let cofFailure := cfg.cof && sent.any fun c => cfg.verdict c == .fail
+    let r := runTest (raisedOf ex.outcome) cofFailure nErr add.marks bad
+    ⟨sent, ex.engineRan, r.1, r.2⟩
+
+/-- the `add_examples` call of `create_test` (made only behind its guard) -/
+def builtExamples (vExc vHdr vMark : Variant) (built : Except Exc (List ECase)) (registers : Bool) :
+    AddResult × List String :=
+  if registers then
+    (addExamples vExc vHdr built, match built with | .ok cases => invalidMark vMark cases | .error _ => [])
+  else (⟨[], [], false⟩, [])
+
+/-- `worker_task` for one operation: `create_test` (phases, `add_examples`), then `run_test`.
+    `built` = what `get_strategies_from_examples` + `generate_one` give for the operation. -/
+def scenario (vExc vHdr vMark vHash : Variant) (built : Except Exc (List ECase)) (db : List ECase) (cfg : RunCfg) :
+    ScenarioResult :=
+  let final := createPhases [cfg.mode] cfg.phases
+  let b := builtExamples vExc vHdr vMark built (registersExamples [cfg.mode] final true)
+  runScenario vHash final b.1 b.2 db cfg
+
+/-- the database after the run: the conjecture engine saves the inputs it ran that did not pass -/
+def dbAfter (db : List ECase) (cfg : RunCfg) (res : ScenarioResult) : List ECase :=
+  if cfg.useDb then db ++ res.engineRan.filter (fun c => cfg.verdict c != .pass) else db
+
+def runHistory (vExc vHdr vMark vHash : Variant) (built : Except Exc (List ECase)) : List ECase → List RunCfg →
+    List (RunCfg × ScenarioResult)
+  | _, [] => []
+  | db, cfg :: rest =>
+    let res := scenario vExc vHdr vMark vHash built db cfg
+    (cfg, res) :: runHistory vExc vHdr vMark vHash built (dbAfter db cfg res) rest
 
 end SV.Model.C17
